@@ -1333,3 +1333,52 @@ fn expand_cells(base: &[Program]) -> Vec<Program> {
     }
     out
 }
+
+// ------------------------------------------------------------------------------------------
+// STAT: thread-locals and lazy statics
+// ------------------------------------------------------------------------------------------
+
+pub fn stat_family(nchildren: usize, maxlen: usize, max_total: usize, tls_flavours: [bool; 2], lazy_flavours: [bool; 2], main_ops: bool) -> Vec<Program> {
+    let mut alpha: Vec<Op> = vec![];
+    for k in 0..2 {
+        alpha.push(K::TlsWith { k }.into());
+        alpha.push(K::LazyGet { k }.into());
+    }
+    alpha.push(K::TlsNested { k: 0, k2: 1 }.into());
+    let pool = seqs(&alpha, maxlen);
+    let mut out = vec![];
+    let mut seen = HashSet::new();
+    let mut mains: Vec<Vec<Op>> = vec![vec![]];
+    if main_ops {
+        mains.extend(seqs(&alpha, 1));
+    }
+    for ch in thread_sets(&pool, nchildren, max_total) {
+        for mm in &mains {
+            let objs = Objs { tls: tls_flavours.to_vec(), lazies: lazy_flavours.to_vec(), ..Default::default() };
+            let p = with_main("STAT", objs, vec![], ch.clone(), mm.clone(), vec![]);
+            if seen.insert(p.text()) {
+                out.push(p);
+            }
+        }
+    }
+    out
+}
+
+pub fn stat_programs(tier: &str) -> Vec<Program> {
+    let mut v = vec![];
+    if tier == "quick" {
+        v.extend(stat_family(1, 2, 2, [false, false], [false, false], true));
+        v.extend(stat_family(2, 2, 3, [false, false], [false, false], false));
+        v.extend(stat_family(2, 1, 2, [true, false], [true, false], true));
+        v.extend(stat_family(2, 2, 3, [true, true], [false, true], false));
+        v.extend(stat_family(3, 1, 3, [false, true], [true, true], false));
+    } else {
+        v.extend(stat_family(1, 3, 3, [false, false], [false, false], true));
+        v.extend(stat_family(2, 2, 4, [false, false], [false, false], true));
+        v.extend(stat_family(2, 2, 4, [true, false], [true, false], true));
+        v.extend(stat_family(2, 2, 4, [true, true], [true, true], false));
+        v.extend(stat_family(3, 1, 3, [true, true], [true, true], true));
+        v.extend(stat_family(3, 2, 4, [false, true], [false, true], false));
+    }
+    v
+}
